@@ -1,5 +1,6 @@
 import ClusterVerif.Lemmas.C17Step
 import ClusterVerif.Lemmas.C17Fault
+import ClusterVerif.Lemmas.C17Conc
 import ClusterVerif.Lemmas.C17Depart
 import ClusterVerif.Spec.C17Depart
 import ClusterVerif.Gen.C17
@@ -637,11 +638,101 @@ example : fAllowed (lostReplyCase .err .all [0, 1, 2, 3]) = true ∧ fHolds (los
     -- a split outcome is refused
     fHolds (lostReplyCase .err .mixed [0, 1, 2, 3]) = false := by decide
 
-/-! ## concurrent phases (suite `conc`) — validated by the correspondence run, not proved
+/-! ## concurrent phases (suite `conc`)
 
-The full statement: every observation the model explains by SOME order of each phase meets the clauses. Kept as a
-definition; `interleaved_log_agree` / `interleaving_projections` above are what is proved about interleavings. -/
+The full statement: every observation the model explains by SOME order of each phase meets the clauses. Still a
+definition (the pinset half and the three per-call clauses are validated by the correspondence run only). PROVED below,
+for ALL cases: the membership half — the invariant goes through `perms` / `dedupLogs` / `cApplyAll` by `cLogs_inv`. -/
 def C17_conc_full : Prop := ∀ k : CCase, cAllowed k = true → cHolds k = true
+
+/-- ANY order of a phase (`order` a permutation of it), ANY admitted outcome of every call (failed calls with or without
+    a trace in the log, pins and other peers' changes interleaved): a peer named only by acknowledged AddPeer calls is in
+    the configuration afterwards; one named only by acknowledged RmPeer calls is not; one nobody names is where it was. -/
+theorem conc_phase_acked_change_lands (running : List Nat) (ph order : List COp) (log log' : List Entry) (j : Nat)
+    (hp : order.Perm ph) (hr : CReach running (removesRunning running ph) log order log') :
+    ((∀ o ∈ ph, o.subject = some j → ∃ a, o = .add a j .ok) → (∃ o ∈ ph, o.subject = some j) →
+        cfgHas (cfgAt log') j = true) ∧
+    ((∀ o ∈ ph, o.subject = some j → ∃ a, o = .rm a j .ok) → (∃ o ∈ ph, o.subject = some j) →
+        cfgHas (cfgAt log') j = false) ∧
+    ((∀ o ∈ ph, o.subject ≠ some j) → cfgHas (cfgAt log') j = cfgHas (cfgAt log) j) := by
+  refine ⟨fun hall ⟨o, ho, hs⟩ => reach_acked_adds hr (fun o ho => hall o (hp.mem_iff.1 ho)) (Or.inr ⟨o, hp.mem_iff.2 ho, hs⟩),
+    fun hall ⟨o, ho, hs⟩ => reach_acked_rms hr (fun o ho => hall o (hp.mem_iff.1 ho)) (Or.inr ⟨o, hp.mem_iff.2 ho, hs⟩),
+    fun hn => reach_untouched hr (fun o ho => hn o (hp.mem_iff.1 ho))⟩
+
+/-- WHOLE HISTORY, all phases, all orders: on every log the concurrent model reaches, every peer the property's
+    bookkeeping is SURE of (`cAdvance`: named by exactly one call of its phase, acknowledged — or untouched since) is in
+    the configuration iff the bookkeeping lists it -/
+theorem conc_sure_peers_in_every_log (init : List Nat) (phases : List (List COp)) (log : List Entry)
+    (h : log ∈ cLogs (normPeers init) [[.boot init]] phases) (j : Nat)
+    (hj : (cFinal (cInit init) phases).unsureP.contains j = false) :
+    cfgHas (cfgAt log) j = (cFinal (cInit init) phases).members.contains j :=
+  cLogs_surePeers init phases log h j hj
+
+/-- `C17_conc_full` RESTRICTED TO THREE OF THE FOUR SYNC-POINT CLAUSES (`agree`, `ack_in_all`, `pinset_agree`), for every concurrent
+    case: whatever the model admits, the remaining members the bookkeeping is sure of report ONE peerset, which contains
+    every surely-added peer and nothing but listed or unsure peers, and ONE pinset. Not covered: `pinset_kept`, and the
+    per-call clauses `add_present_noop` / `rm_absent_noop` / `last_peer_kept`. -/
+theorem conc_allowed_membership_holds (k : CCase) (ha : cAllowed k = true) :
+    ∀ c ∈ cCheckObs k.init (cFinal (cInit k.init) k.phases) k.obs,
+      (c.1 = "agree" ∨ c.1 = "ack_in_all" ∨ c.1 = "pinset_agree") → c.2 = true := by
+  unfold cAllowed at ha
+  obtain ⟨log, hlog, hobs⟩ := List.any_eq_true.1 ha
+  have S := cLogs_surePeers k.init k.phases log hlog
+  generalize cFinal (cInit k.init) k.phases = s at S ⊢
+  unfold fObsOk at hobs
+  simp only [Bool.and_eq_true, List.all_eq_true] at hobs
+  obtain ⟨h1, _⟩ := hobs
+  have key : ∀ m ∈ k.obs.members.filter
+      (fun m => k.init.contains m.id && s.members.contains m.id && !s.unsureP.contains m.id),
+      m.peers = cfgIds (cfgAt log) ∧ canonMap m.pins = canonMap (pinsAt log) := by
+    intro m hm
+    obtain ⟨hm1, hm2⟩ := List.mem_filter.1 hm
+    simp only [Bool.and_eq_true, Bool.not_eq_true'] at hm2
+    have hc : cfgHas (cfgAt log) m.id = true := by rw [S m.id hm2.2]; exact hm2.1.2
+    have := h1 m hm1
+    simp only [hm2.1.1, hc, Bool.and_self, Bool.not_true, Bool.false_or, Bool.and_eq_true, beq_iff_eq] at this
+    exact ⟨this.1.1, this.1.2⟩
+  intro c hc hn
+  simp only [cCheckObs, List.mem_cons, List.not_mem_nil, or_false] at hc
+  generalize k.obs.members.filter
+      (fun m => k.init.contains m.id && s.members.contains m.id && !s.unsureP.contains m.id) = R at key hc
+  rcases hc with rfl | rfl | rfl | rfl
+  · simp only [List.all_eq_true]
+    intro m hm
+    obtain ⟨f, hf⟩ : ∃ f, R.head? = some f := by
+      cases R with
+      | nil => cases hm
+      | cons f tl => exact ⟨f, rfl⟩
+    have hfm : f ∈ R := List.mem_of_mem_head? hf
+    rw [hf]; simp [(key m hm).1, (key f hfm).1]
+  · simp only [List.all_eq_true, Bool.and_eq_true, Bool.or_eq_true]
+    intro m hm
+    rw [(key m hm).1]
+    constructor
+    · intro j hjm
+      cases hu : s.unsureP.contains j with
+      | true => exact Or.inl rfl
+      | false =>
+        right
+        have := S j hu
+        rw [List.contains_iff_mem.2 hjm] at this
+        exact this
+    · intro j hjc
+      cases hu : s.unsureP.contains j with
+      | true => exact Or.inr rfl
+      | false =>
+        left
+        rw [← S j hu]
+        unfold cfgHas; exact List.contains_iff_mem.2 hjc
+  · simp only [List.all_eq_true]
+    intro m hm
+    obtain ⟨f, hf⟩ : ∃ f, R.head? = some f := by
+      cases R with
+      | nil => cases hm
+      | cons f tl => exact ⟨f, rfl⟩
+    have hfm : f ∈ R := List.mem_of_mem_head? hf
+    rw [hf]; simp [(key m hm).2, (key f hfm).2]
+  · simp only at hn; rcases hn with h | h | h <;> exact absurd h (by decide)
 
 /-- a pin at the leader races with the leader's own removal: acknowledged pin present in either order -/
 def concCase (pins : PinMap) : CCase :=
@@ -651,6 +742,11 @@ def concCase (pins : PinMap) : CCase :=
 example : cAllowed (concCase [(pinCid 1).stored, (pinCid 2).stored]) = true ∧
     cHolds (concCase [(pinCid 1).stored, (pinCid 2).stored]) = true ∧
     cHolds (concCase [(pinCid 2).stored]) = false ∧ cAllowed (concCase [(pinCid 2).stored]) = false := by decide
+/-- the hypotheses of the three theorems above are met by that case: its one phase names peer 0 by exactly one call, an
+    acknowledged removal, racing with two pins -/
+example : cAllowed (concCase [(pinCid 1).stored, (pinCid 2).stored]) = true ∧
+    (cFinal (cInit [0, 1, 2]) (concCase []).phases).unsureP.contains 0 = false ∧
+    (cFinal (cInit [0, 1, 2]) (concCase []).phases).members = [1, 2] := by decide
 
 /-! ## a joiner during a burst of pins (suite `join`) -/
 
